@@ -66,8 +66,21 @@ fn menv_mixed(n: usize, seed: u64, variant: u32) -> Vec<usize> {
 ///   2      new orders, each odd instruction cancelling the order placed by the instruction before it
 ///          (a cancellation of an order created in the same step)
 ///   3      new orders, each odd instruction modifying the order placed by the instruction before it
+/// `opt` varies the environment and what the instructions address, none of which may influence the order:
+///   1  trading disabled from construction      2  another assignment of instructions to assets ((i / 2) % 2 instead of i % 2)
+///   4  every instruction addresses asset 1      8  step size 2 (the batch exceeds it)
+///  16  start time 12 345                       32  the new orders are market orders
 /// Returns the index permutation (perm[k] = submission index processed k-th), read from the hook.
 fn batch_perm(multi: bool, n: usize, seed: u64, content: u32, prior: usize, prior_size: usize) -> Vec<usize> {
+    batch_perm_opt(multi, n, seed, content, prior, prior_size, 0)
+}
+
+fn batch_perm_opt(multi: bool, n: usize, seed: u64, content: u32, prior: usize, prior_size: usize, opt: u32) -> Vec<usize> {
+    let trading = opt & 1 == 0;
+    let asset_of = move |i: usize| if opt & 4 != 0 { 1 } else if opt & 2 != 0 { (i / 2) % 2 } else { i % 2 };
+    let step_size: u64 = if opt & 8 != 0 { 2 } else { 1_000_000 };
+    let t0: u64 = if opt & 16 != 0 { 12_345 } else { 0 };
+    let market = opt & 32 != 0;
     let mut rng0 = R::seed_from_u64(seed ^ 0xABCD_EF01);
     let mut rng = R::seed_from_u64(seed);
     macro_rules! drive {
@@ -84,7 +97,7 @@ fn batch_perm(multi: bool, n: usize, seed: u64, content: u32, prior: usize, prio
                     if content == 2 { expect.push($cancel(&mut $env, id)); } else { expect.push($modify(&mut $env, id, 300 + i as u32)); }
                 } else {
                     let (side, price) = if content == 1 && i % 3 == 0 { (Side::Bid, 20 + i as u32 % 4) } else { (Side::Ask, 200 + (i as u32 * 7) % 13) };
-                    let (id, e) = $place(&mut $env, i, side, 1 + (i as u32 + content) % 4, price);
+                    let (id, e) = $place(&mut $env, i, side, 1 + (i as u32 + content) % 4, if market { u32::MAX } else { price });
                     last = Some(id);
                     expect.push(e);
                 }
@@ -100,16 +113,16 @@ fn batch_perm(multi: bool, n: usize, seed: u64, content: u32, prior: usize, prio
         }};
     }
     if multi {
-        let mut env: MarketEnv<2, 1> = MarketEnv::new(0, [1, 1], 1_000_000, true);
+        let mut env: MarketEnv<2, 1> = MarketEnv::new(t0, [1, 1], step_size, trading);
         drive!(env,
-            |e: &mut MarketEnv<2, 1>, i: usize, side, vol, price| { let id = e.place_order(i % 2, side, vol, 3, Some(price)).unwrap(); (id, (0u8, id, None::<u32>, None::<u32>)) },
+            |e: &mut MarketEnv<2, 1>, i: usize, side, vol, price: u32| { let id = e.place_order(asset_of(i), side, vol, 3, if price == u32::MAX { None } else { Some(price) }).unwrap(); (id, (0u8, id, None::<u32>, None::<u32>)) },
             |e: &mut MarketEnv<2, 1>, id: (usize, usize)| { e.cancel_order(id); (1u8, id, None::<u32>, None::<u32>) },
             |e: &mut MarketEnv<2, 1>, id: (usize, usize), p: u32| { e.modify_order(id, Some(p), None); (2u8, id, Some(p), None::<u32>) },
             |e: &MarketEnv<2, 1>| e.verif_schedule().to_vec())
     } else {
-        let mut env: Env<1> = Env::new(0, 1, 1_000_000, true);
+        let mut env: Env<1> = Env::new(t0, 1, step_size, trading);
         drive!(env,
-            |e: &mut Env<1>, _i: usize, side, vol, price| { let id = e.place_order(side, vol, 3, Some(price)).unwrap(); (id, (0u8, id, None::<u32>, None::<u32>)) },
+            |e: &mut Env<1>, _i: usize, side, vol, price: u32| { let id = e.place_order(side, vol, 3, if price == u32::MAX { None } else { Some(price) }).unwrap(); (id, (0u8, id, None::<u32>, None::<u32>)) },
             |e: &mut Env<1>, id: usize| { e.cancel_order(id); (1u8, id, None::<u32>, None::<u32>) },
             |e: &mut Env<1>, id: usize, p: u32| { e.modify_order(id, Some(p), None); (2u8, id, Some(p), None::<u32>) },
             |e: &Env<1>| e.verif_schedule().to_vec())
@@ -197,10 +210,15 @@ fn main() {
                 let seed = base ^ (s * 104_729 + n as u64 * 31 + multi as u64);
                 let labels = ["fresh", "fresh again", "other new orders", "cancels of orders created in the same step",
                     "modifies of orders created in the same step", "after 1 step of the same batch size", "after 3 steps of the same batch size",
-                    "after 2 steps of another batch size", "same-step cancels after 2 steps of the same batch size"];
+                    "after 2 steps of another batch size", "same-step cancels after 2 steps of the same batch size",
+                    "trading disabled", "trading disabled, after 1 step", "another assignment of instructions to assets", "every instruction on asset 1",
+                    "step size 2", "start time 12345", "market orders", "market orders, trading disabled, step size 2"];
                 let perms = vec![batch_perm(multi, n, seed, 0, 0, 0), batch_perm(multi, n, seed, 0, 0, 0), batch_perm(multi, n, seed, 1, 0, 0),
                     batch_perm(multi, n, seed, 2, 0, 0), batch_perm(multi, n, seed, 3, 0, 0), batch_perm(multi, n, seed, 0, 1, n),
-                    batch_perm(multi, n, seed, 1, 3, n), batch_perm(multi, n, seed, 0, 2, n + 1), batch_perm(multi, n, seed, 2, 2, n)];
+                    batch_perm(multi, n, seed, 1, 3, n), batch_perm(multi, n, seed, 0, 2, n + 1), batch_perm(multi, n, seed, 2, 2, n),
+                    batch_perm_opt(multi, n, seed, 0, 0, 0, 1), batch_perm_opt(multi, n, seed, 1, 1, n, 1), batch_perm_opt(multi, n, seed, 0, 0, 0, 2),
+                    batch_perm_opt(multi, n, seed, 0, 0, 0, 4), batch_perm_opt(multi, n, seed, 0, 0, 0, 8), batch_perm_opt(multi, n, seed, 0, 0, 0, 16),
+                    batch_perm_opt(multi, n, seed, 0, 0, 0, 32), batch_perm_opt(multi, n, seed, 0, 0, 0, 1 | 8 | 32)];
                 emit(json!({"kind": "det2", "env": if multi { "menv" } else { "env" }, "n": n, "seed": seed.to_string(), "labels": labels, "perms": perms}), &mut f);
             }
         }
@@ -210,6 +228,10 @@ fn main() {
     for n in 2..=4usize {
         emit(perm_table("env_same_step", n, trials, base ^ (0xC0 + n as u64) << 32, &|n, seed, _v| batch_perm(false, n, seed, 2, 0, 0)), &mut f);
         emit(perm_table("menv_same_step", n, trials, base ^ (0xD0 + n as u64) << 32, &|n, seed, _v| batch_perm(true, n, seed, 2, 1, n)), &mut f);
+        // trading disabled; every instruction on one asset of two; batches larger than the step size
+        emit(perm_table("env_trading_off", n, trials, base ^ (0xE0 + n as u64) << 32, &|n, seed, v| batch_perm_opt(false, n, seed, v % 2, 0, 0, 1)), &mut f);
+        emit(perm_table("menv_trading_off_one_asset", n, trials, base ^ (0xF0 + n as u64) << 32, &|n, seed, v| batch_perm_opt(true, n, seed, v % 2, 0, 0, 1 | 4)), &mut f);
+        emit(perm_table("menv_small_step", n, trials, base ^ (0x1F0 + n as u64) << 32, &|n, seed, _v| batch_perm_opt(true, n, seed, 0, 0, 0, 2 | 8)), &mut f);
     }
     f.flush().unwrap();
     println!("{}", json!({"tables": tables, "cells": cells, "steps": steps}));
